@@ -1134,7 +1134,21 @@ def ci_detect(repo: Repo, rep):
         txt = " ".join(norm(b) for b in body)
         value_test = any(p in txt for p in (f"os.environ.get({v}", f"os.environ[{v}]", f"os.getenv({v}", f"environ.get({v}"))
         presence_only = f"{v} in os.environ" in txt and not value_test
+        # ... by its truth value: any non-empty value announces a CI system (BUILD_NUMBER=17, JENKINS_URL=http://..); a comparison with
+        # a list of "true" spellings recognises only the boolean-style variables
+        narrowed = None
         if value_test:
+            conds_ = [b_.test if isinstance(b_, ast.If) else b_ for b_ in body]
+            for cnd in conds_:
+                for x in ast.walk(cnd):
+                    if isinstance(x, ast.Compare) and any(p in norm(x) for p in (f"os.environ.get({v}", f"os.environ[{v}]", f"os.getenv({v}", f"environ.get({v}")):
+                        rhs = x.comparators[0]
+                        empty_cmp = isinstance(x.ops[0], (ast.NotEq, ast.IsNot)) and isinstance(rhs, ast.Constant) and rhs.value in ("", None, False)
+                        if not empty_cmp:
+                            narrowed = x
+        if narrowed is not None:
+            rep.violation("R-CI-DETECT", f, narrowed, f"is_ci_run() accepts a CI variable only for certain values (`{short(narrowed, 60)}`): BUILD_NUMBER, BUILD_ID, JENKINS_URL, TEAMCITY_VERSION ... are never 'true' - runs on Jenkins / TeamCity / Bamboo are not recognised as CI, snapshot(v) stays a wrapper there and files can be rewritten", construct="value-narrowed")
+        elif value_test:
             rep.ok("R-CI-DETECT", f, it, "each variable's value is tested")
         else:
             rep.violation("R-CI-DETECT", f, it, "is_ci_run() picks a variable by presence (`var in os.environ`) instead of testing every variable's value: with e.g. CI='' and BUILD_NUMBER=17 the CI run is not detected and files are rewritten" if presence_only else "is_ci_run() iterates its table without testing the variables' values", construct="presence-only")
